@@ -510,3 +510,59 @@ func checkAdoptedOnSuccess(c *core.Ctx, r *core.Report, rule string, call *ssa.C
 	}
 	r.OK(rule, construct, c.Pos(call.Pos()), "every path from the err == nil edge reaches the append")
 }
+
+// assertGuarded: an unchecked type assertion x.(T) is safe when it is
+// dominated by the success edge of a comma-ok assertion (or type-switch arm)
+// of the same value to the same type.
+func assertGuarded(ta *ssa.TypeAssert) bool {
+	// candidates: comma-ok assertions of the same value, or of another load of the same field address
+	var cands []*ssa.TypeAssert
+	sameCellLoad := func(a, b ssa.Value) bool {
+		ua, ok1 := a.(*ssa.UnOp)
+		ub, ok2 := b.(*ssa.UnOp)
+		if !ok1 || !ok2 {
+			return false
+		}
+		fa, ok1 := ua.X.(*ssa.FieldAddr)
+		fb, ok2 := ub.X.(*ssa.FieldAddr)
+		return ok1 && ok2 && fa.X == fb.X && fa.Field == fb.Field
+	}
+	for _, b := range ta.Parent().Blocks {
+		for _, in := range b.Instrs {
+			if o, ok := in.(*ssa.TypeAssert); ok && o.CommaOk && o != ta && (o.X == ta.X || sameCellLoad(o.X, ta.X)) {
+				cands = append(cands, o)
+			}
+		}
+	}
+	for _, other := range cands {
+		if !types.Identical(other.AssertedType, ta.AssertedType) {
+			continue
+		}
+		// find the ok extract and the If on it
+		orefs := other.Referrers()
+		if orefs == nil {
+			continue
+		}
+		for _, or := range *orefs {
+			ex, ok := or.(*ssa.Extract)
+			if !ok || ex.Index != 1 {
+				continue
+			}
+			erefs := ex.Referrers()
+			if erefs == nil {
+				continue
+			}
+			for _, er := range *erefs {
+				ifi, ok := er.(*ssa.If)
+				if !ok {
+					continue
+				}
+				succ := ifi.Block().Succs[0]
+				if len(succ.Preds) == 1 && succ.Dominates(ta.Block()) {
+					return true
+				}
+			}
+		}
+	}
+	return false
+}
